@@ -262,6 +262,9 @@ func (h *Handler) closeWithErrors() error {
 
 	var errs []error
 
+	// Only a handler that has actually created the file may remove it.
+	created := h.openType == ForCreate && h.fp != nil
+
 	if h.fp != nil {
 		verifPoint("cwe.data_fd", h.path)
 		if err := file.Close(h.fp); err != nil {
@@ -271,7 +274,7 @@ func (h *Handler) closeWithErrors() error {
 		}
 	}
 
-	if h.openType == ForCreate && Exists(h.path) {
+	if created && Exists(h.path) {
 		verifPoint("cwe.remove_created", h.path)
 		if err := os.Remove(h.path); err != nil {
 			errs = append(errs, err)
